@@ -14,7 +14,7 @@ import (
 // sfuScenario: a locking read inside a global transaction, autocommit or inside an explicit local transaction, with
 // or without a foreign global transaction holding one of the rows at the coordinator.
 func sfuScenario(r *hutil.Rng, i int, stream string) (atrun.Scenario, Meta) {
-	variant := []int{0, 3, 2}[r.Intn(3)]
+	variant := []int{0, 3, 2, 6, 7}[r.Intn(5)]
 	t := mkTable(r, variant, false)
 	for t.nkeys < 3 {
 		t = mkTable(r, variant, false)
@@ -26,6 +26,9 @@ func sfuScenario(r *hutil.Rng, i int, stream string) (atrun.Scenario, Meta) {
 	if conflict {
 		// a foreign global transaction owns row 1 or 2 at the coordinator
 		pk := strconv.Itoa(1 + r.Intn(2))
+		if variant >= 6 {
+			pk = "1.25e+06"
+		}
 		if variant == 2 {
 			pk = "1_" + []string{"x", "y"}[r.Intn(2)]
 		}
@@ -53,7 +56,40 @@ func sfuScenario(r *hutil.Rng, i int, stream string) (atrun.Scenario, Meta) {
 		b.w(keycol + " = ")
 		b.intVal(r, 999)
 	}
+	if t.cols[t.pk[0]].Kind == "num" {
+		b = &sqlb{}
+		switch r.Intn(3) {
+		case 0:
+			b.w(keycol + " >= ")
+			b.intVal(r, 0)
+		case 1:
+			b.w(keycol + " IN (?, ?)")
+			b.args = append(b.args, atrun.I(1250000), atrun.Arg{T: "float", V: "12.5"})
+		default:
+			b.w(keycol + " > ")
+			b.intVal(r, 1000)
+		}
+	}
 	where := b.sb.String()
+	// ORDER BY a non-key column (+ key as tie-break) with LIMIT [OFFSET]: the rows handed out are a strict, order
+	// dependent subset of the rows matching WHERE
+	var ordcol string
+	for c := range t.cols {
+		if !t.isPK(c) && t.cols[c].Kind == "int" {
+			ordcol = t.cols[c].Name
+		}
+	}
+	if ordcol != "" && r.Chance(2, 5) {
+		where += " ORDER BY " + ordcol
+		if r.Chance(1, 2) {
+			where += " DESC"
+		}
+		where += ", " + strings.Join(t.pkNames(), ", ") + " LIMIT " + strconv.Itoa(1+r.Intn(2))
+		if r.Chance(1, 3) {
+			where += " OFFSET 1"
+		}
+		meta.Extra["ordered"] = "1"
+	}
 	explicit := r.Chance(1, 2)
 	conn := ""
 	var body []atrun.Step
@@ -62,7 +98,7 @@ func sfuScenario(r *hutil.Rng, i int, stream string) (atrun.Scenario, Meta) {
 		body = append(body, atrun.Step{Op: "tx_begin", Conn: conn})
 	}
 	sm := StmtMeta{Kind: "sfu", Args: b.args, Expect: "any", Conn: conn}
-	if explicit && r.Chance(1, 2) {
+	if explicit && meta.Extra["ordered"] == "" && r.Chance(1, 2) {
 		// the local transaction first writes exactly the rows it then reads with FOR UPDATE
 		var nonpk string
 		for c := range t.cols {
@@ -75,8 +111,16 @@ func sfuScenario(r *hutil.Rng, i int, stream string) (atrun.Scenario, Meta) {
 	}
 	sm.MatchPath = fmt.Sprintf("%d.%d", len(steps), len(body))
 	body = append(body, atrun.Step{Op: "query", Via: "bare", NoCtx: true, SQL: "SELECT " + strings.Join(t.pkNames(), ", ") + " FROM " + t.name + " WHERE " + where, Args: b.args})
+	if explicit {
+		meta.Extra["locks_pre"] = fmt.Sprintf("%d.%d", len(steps), len(body))
+		body = append(body, atrun.Step{Op: "db_locks"})
+	}
 	sm.Path = fmt.Sprintf("%d.%d", len(steps), len(body))
 	body = append(body, atrun.Step{Op: "query", Conn: conn, SQL: "SELECT * FROM " + t.name + " WHERE " + where + " FOR UPDATE", Args: b.args})
+	if explicit {
+		meta.Extra["locks_post"] = fmt.Sprintf("%d.%d", len(steps), len(body))
+		body = append(body, atrun.Step{Op: "db_locks"})
+	}
 	if explicit {
 		body = append(body, atrun.Step{Op: "tx_commit", Conn: conn}, atrun.Step{Op: "conn_close", Conn: conn})
 	}
